@@ -118,6 +118,30 @@ func (x *Exec) specAssume(fr *Frame, st *State, c Clause) {
 	})
 }
 
+// applyUses assumes the lemma instances declared with `use` for this program point; a use that mentions a local variable
+// which does not exist on this path is skipped
+func (x *Exec) applyUses(fr *Frame, st *State, env *SpecEnv, at string) {
+	if fr.con == nil {
+		return
+	}
+	for _, u := range fr.con.Uses {
+		if u.At != at {
+			continue
+		}
+		func() {
+			defer func() {
+				if e := recover(); e != nil {
+					if se, ok := e.(specErr); ok && strings.Contains(se.msg, "unknown identifier") {
+						return
+					}
+					panic(e)
+				}
+			}()
+			x.assumeF(st, env.evalBool(u.C.Expr).formula())
+		}()
+	}
+}
+
 // ---------- modifies: locations ----------
 
 type Loc struct {
@@ -452,9 +476,12 @@ func (x *Exec) atReturn(fr *Frame, st *State, rs []Val) {
 	ret := lastReturn(fr.fn)
 	x.withSpecErr(con.Where, func() {
 		env := x.specEnvAt(fr, st, fr.pre, names)
+		x.applyUses(fr, st, env, "return")
 		for i, e := range con.Ensures {
 			f := env.evalBool(e.Expr).formula()
 			x.proveF(fr, st, fmt.Sprintf("ensures[%d]", i), "ensures", f, ret)
+			// later postconditions may rely on earlier ones (each is proved under the same path condition)
+			x.assumeF(st, f)
 		}
 		// lock balance: exported entry points must release what they took
 		for k, h := range st.held {
@@ -709,14 +736,12 @@ func (eng *Engine) verifyLemma(con *Contract, bound int) *FuncResult {
 
 // ---------- discharging ----------
 
-func (x *Exec) buildQuery(o *Oblig) *Query {
-	q := &Query{}
-	o.hasQ = false
-	// instantiation terms: the path's index terms (with their sequences), +-1 of the first few, and 0
+// extTerms: the path's index terms (absolute index, sequence), +-1 of the first few sequence terms, and 0
+func (x *Exec) extTerms(idx []IdxT) []IdxT {
 	var ext []IdxT
 	seen := map[IdxT]bool{}
 	hasSeq := map[string]bool{}
-	for _, t := range o.Idx {
+	for _, t := range idx {
 		if t.Seq != "" {
 			hasSeq[t.T] = true
 		}
@@ -730,17 +755,26 @@ func (x *Exec) buildQuery(o *Oblig) *Query {
 			ext = append(ext, t)
 		}
 	}
-	for i, t := range o.Idx {
+	n := 0
+	for _, t := range idx {
 		add(t)
-		if i < 8 && t.Seq != "" {
+		if n < 10 && t.Seq != "" {
+			n++
 			add(IdxT{sSub(t.T, "1"), t.Seq})
 			add(IdxT{sAdd(t.T, "1"), t.Seq})
 		}
 	}
 	add(IdxT{"0", ""})
-	if len(ext) > 40 {
-		ext = ext[:40]
+	if len(ext) > 60 {
+		ext = ext[:60]
 	}
+	return ext
+}
+
+func (x *Exec) buildQuery(o *Oblig) *Query {
+	q := &Query{}
+	o.hasQ = false
+	ext := x.extTerms(o.Idx)
 	if os.Getenv("GOVC_DEBUG_IDX") != "" && strings.Contains(o.Name, os.Getenv("GOVC_DEBUG_IDX")) {
 		for _, t := range ext {
 			fmt.Fprintf(os.Stderr, "IDX %s  @ %s\n", truncate(t.T, 80), truncate(t.Seq, 60))
@@ -777,36 +811,43 @@ func (x *Exec) buildQuery(o *Oblig) *Query {
 var keepDir = os.Getenv("GOVC_KEEP")
 
 func (res *FuncResult) discharge(timeoutMs int, workers int) {
+	dischargeAll([]*FuncResult{res}, timeoutMs, workers)
+}
+
+// dischargeAll solves the obligations of all results with one worker pool
+func dischargeAll(results []*FuncResult, timeoutMs int, workers int) {
 	var wg sync.WaitGroup
 	sem := make(chan struct{}, workers)
-	// dedupe identical queries
 	type job struct {
 		text  string
 		text2 string
 		obs   []*Oblig
+		res   *FuncResult
 	}
-	byText := map[string]*job{}
 	var jobs []*job
-	for _, o := range res.Obs {
-		if o.Kind == "subset" || o.Kind == "target" {
-			o.Res = SolveResult{Status: "sat", Solver: "none", Output: o.Where}
-			continue
-		}
-		res.x.withQ = false
-		text := res.decls.render(res.x.buildQuery(o))
-		text2 := ""
-		if o.hasQ {
-			res.x.withQ = true
-			text2 = res.decls.render(res.x.buildQuery(o))
+	for _, res := range results {
+		byText := map[string]*job{}
+		for _, o := range res.Obs {
+			if o.Kind == "subset" || o.Kind == "target" {
+				o.Res = SolveResult{Status: "sat", Solver: "none", Output: o.Where}
+				continue
+			}
 			res.x.withQ = false
+			text := res.decls.render(res.x.buildQuery(o))
+			text2 := ""
+			if o.hasQ {
+				res.x.withQ = true
+				text2 = res.decls.render(res.x.buildQuery(o))
+				res.x.withQ = false
+			}
+			if j, ok := byText[text]; ok {
+				j.obs = append(j.obs, o)
+				continue
+			}
+			j := &job{text: text, text2: text2, obs: []*Oblig{o}, res: res}
+			byText[text] = j
+			jobs = append(jobs, j)
 		}
-		if j, ok := byText[text]; ok {
-			j.obs = append(j.obs, o)
-			continue
-		}
-		j := &job{text: text, text2: text2, obs: []*Oblig{o}}
-		byText[text] = j
-		jobs = append(jobs, j)
 	}
 	for _, j := range jobs {
 		wg.Add(1)
@@ -840,7 +881,7 @@ func (res *FuncResult) discharge(timeoutMs int, workers int) {
 			}
 			if keepDir != "" {
 				sfx := ""
-				if res.x.bound >= 0 {
+				if j.res.x.bound >= 0 {
 					sfx = ".r1"
 				}
 				os.WriteFile(fmt.Sprintf("%s/%s%s.smt2", keepDir, sanitize(j.obs[0].Name), sfx), []byte(j.text), 0644)
